@@ -160,7 +160,23 @@ def r16_2(ctx) -> None:
     ctx.check(ok, "R16.3", u, loops[0] if loops else "__anext__", "the advance skips (steps over) the rest of the "
               "previous run: while the cursor key equals the previous target key")
     tstores = [n for n in main if n.kind == "store" and any(
-        isinstance(t, ast.Attribute) and t.attr == "target_key" for t in n.info.get("targets", []))]
+        isinstance(x, ast.Attribute) and x.attr == "target_key" and isinstance(x.ctx, ast.Store)
+        for t in n.info.get("targets", []) for x in ast.walk(t))]
+    scan_tests = [n for n in main if n.kind == "branch" and isinstance(n.ast, ast.Compare) and len(n.ast.ops) == 1
+                  and isinstance(n.ast.ops[0], (ast.Eq, ast.NotEq)) and "current_key" in norm(n.ast)
+                  and "target_key" in norm(n.ast) and any(k == "loop" for (k, _a) in n.regions)]
+    no_target = [n for n in main if n.kind == "handler" and "AttributeError" in norm(n.info.get("type"))]
+
+    def scan_exit(t) -> str:
+        return "f" if isinstance(t.ast.ops[0], ast.Eq) else "t"
+
+    for ts in tstores:
+        path = find_path(cfg.entry, lambda x: x is ts, avoid=lambda x: x in no_target,
+                         edge_ok=lambda a, lab, b: lab not in ("p",) and (lab != "e" or a.kind == "attr")
+                         and not (a in scan_tests and lab == scan_exit(a)))
+        ctx.check(path is None, "R16.3", u, ts, "a new group starts only after the scan found a key different from the "
+                  "previous target key (or there is no previous group): the unread rest of a partly consumed run is "
+                  "never re-issued as a new group", node=ts, witness=pretty_path(path))
     ok = len(tstores) == 1 and "current_key" in norm(tstores[0].info.get("value"))
     ctx.check(ok, "R16.3", u, tstores[0] if tstores else "__anext__", "the new target key is the key of the first item of the new run")
 
